@@ -233,7 +233,6 @@ func zoektRepo(rp *RepoSpec) *zoekt.Repository {
 	return zr
 }
 
-
 func addDocs(b *index.ShardBuilder, rp *RepoSpec) error {
 	for i := range rp.Docs {
 		d := &rp.Docs[i]
